@@ -241,7 +241,7 @@ def apply_action(seq, qual, matches, kept, action):
 # ------------------------------------------------------------------------------------------------
 
 class Rec:
-    __slots__ = ("name", "seq", "qual", "matches", "cut_prefix", "cut_suffix", "is_rc", "orig")
+    __slots__ = ("name", "seq", "qual", "matches", "cut_prefix", "cut_suffix", "is_rc", "orig", "qtrim", "polya")
 
     def __init__(self, name, seq, qual):
         self.name, self.seq, self.qual = name, seq, qual
@@ -249,6 +249,8 @@ class Rec:
         self.cut_prefix = self.cut_suffix = None
         self.is_rc = None
         self.orig = (name, seq, qual)
+        self.qtrim = 0   # bases removed by quality / NextSeq trimming
+        self.polya = 0   # bases removed by poly-A / poly-T trimming
 
     def slice(self, a, b):
         self.seq = self.seq[a:b]
@@ -294,7 +296,9 @@ class Model:
                     rec.slice(0, max(0, len(rec.seq) + c))
         elif name == "nextseq":
             if o.get("nextseq") is not None and rec.qual is not None:
+                n0 = len(rec.seq)
                 rec.slice(0, refops.nextseq3(rec.seq, _qvals(rec.qual, self.base), o["nextseq"]))
+                rec.qtrim += n0 - len(rec.seq)
         elif name == "quality":
             qspec = o.get("q")
             if mate == 1 and o.get("Q") is not None:
@@ -302,6 +306,7 @@ class Model:
             if qspec is not None and qspec != "0" and rec.qual is not None:
                 cf, cb = parse_q(qspec)
                 a, b = refops.qualtrim(_qvals(rec.qual, self.base), cf, cb)
+                rec.qtrim += len(rec.seq) - (b - a)
                 rec.slice(a, b)
         elif name == "adapter":
             ads = self.ad[mate]
@@ -311,10 +316,12 @@ class Model:
                 rec.matches = matches
         elif name == "poly_a":
             if o.get("poly_a"):
+                n0 = len(rec.seq)
                 if mate == 0:
                     rec.slice(0, refops.polya3(rec.seq))
                 else:
                     rec.slice(refops.polyt5(rec.seq), len(rec.seq))
+                rec.polya += n0 - len(rec.seq)
         elif name == "length":
             L = o.get("length")
             if mate == 1 and o.get("length2") is not None:
@@ -365,6 +372,38 @@ class Model:
         for st in (order or self.STEPS):
             self.step(st, rec, mate)
         return rec
+
+    def run_steps(self, rec, mate, names):
+        for st in names:
+            self.step(st, rec, mate)
+        return rec
+
+    def process_pair_adapters(self, r1, r2):
+        """--pair-adapters: the pair of same-rank adapters with the best total score (ties: fewer errors, then first) is applied
+        to both mates, or nothing is applied."""
+        i = self.STEPS.index("adapter")
+        a = self.run_steps(Rec(*r1), 0, self.STEPS[:i])
+        b = self.run_steps(Rec(*r2), 1, self.STEPS[:i])
+        best = None
+        for ad1, ad2 in zip(self.ad[0], self.ad[1]):
+            m1 = match_one(ad1, a.seq)
+            if m1 is None:
+                continue
+            m2 = match_one(ad2, b.seq)
+            if m2 is None:
+                continue
+            key = (m1.score + m2.score, -(m1.errors + m2.errors))
+            if best is None or key > best[0]:
+                best = (key, m1, m2)
+        if best is not None:
+            for rec, m in ((a, best[1]), (b, best[2])):
+                m.abs_offset = 0
+                kept = kept_interval(m, len(rec.seq))
+                rec.seq, rec.qual = apply_action(rec.seq, rec.qual, [m], kept, self.o.get("action", "trim"))
+                rec.matches = [m]
+        self.run_steps(a, 0, self.STEPS[i + 1:])
+        self.run_steps(b, 1, self.STEPS[i + 1:])
+        return a, b
 
     def process_single(self, name, seq, qual):
         return self.process(name, seq, qual, 0)
